@@ -37,6 +37,8 @@ func liqDenomCode(d string) int64 {
 		return 3
 	case "ucmdx":
 		return 9
+	case "uzzz":
+		return 7
 	}
 	var a, p int64
 	if n, _ := fmt.Sscanf(d, "pool%d-%d", &a, &p); n == 2 {
@@ -98,6 +100,8 @@ type liqWorld struct {
 	orders []liqtypes.Order           // orders ever placed (for cancels)
 	users  map[int]bool
 	life    *lifeScn // the order-life scenario of this case (nil: none)
+	wrongPct   int // share of order ops that are wrong-coin orders (liq3_scn_test.go)
+	creatorPct int // share of pool ops sent by the pool creator (who may hold a whole pool-coin supply)
 	huntHit *[4]uint64 // app, pair, order id, owner of the order the directed search placed (mode C05F)
 	poolPct int      // share of pool operations
 }
@@ -285,6 +289,7 @@ func (w *liqWorld) opCreatePair(app uint64, creator int, base, quote int64) {
 		ps := w.k.GetAllPairs(w.ctx, app)
 		w.pairs[app] = ps
 		w.watchPair(ps[len(ps)-1])
+		w.watchPairAll(ps[len(ps)-1])
 	}
 	w.obs()
 }
@@ -368,6 +373,8 @@ func (w *liqWorld) opOrder(market bool, app uint64, owner int, pair uint64, dir 
 		if p, ok := w.k.GetPair(w.ctx, app, pair); ok {
 			if o, ok := w.k.GetOrder(w.ctx, app, pair, p.LastOrderId); ok {
 				w.orders = append(w.orders, o)
+				// the escrow clause is per denom: whatever coin an accepted order offers is watched on its pair's escrow
+				w.watchBal(fmt.Sprintf("esc.%d.%d", app, pair), p.GetEscrowAddress(), o.OfferCoin.Denom)
 			}
 		}
 	}
@@ -859,6 +866,23 @@ func liqDrive(t *testing.T, mode string) {
 		if c06 {
 			w.poolPct = 80
 		}
+		// directed parts (liq3_scn_test.go); the directed search of mode C05F keeps its own stream of draws
+		spBatch, wcBatch := -1, -1
+		if c04 {
+			w.creatorPct = 8
+			if g.chance(70) {
+				spBatch = 0
+				if g.chance(30) {
+					spBatch = g.intn(nb)
+				}
+			}
+		}
+		if !hunt && !c06 {
+			w.wrongPct = 5
+			if g.chance(map[string]int{"C07": 60, "C04": 60, "C05": 25}[mode]) {
+				wcBatch = g.intn(nb)
+			}
+		}
 		for b := 0; b < nb; b++ {
 			nops := 10 + g.intn(31)
 			if c06 {
@@ -866,6 +890,12 @@ func liqDrive(t *testing.T, mode string) {
 			}
 			if w.life != nil {
 				w.lifeStep(g)
+			}
+			if b == spBatch {
+				w.soleProviderScn(g)
+			}
+			if b == wcBatch {
+				w.wrongCoinScn(g)
 			}
 			if hunt && b >= 1 {
 				// one hit per case; afterwards the blocks only pass (and the owner tries to cancel): a stalled app
@@ -973,6 +1003,10 @@ func (w *liqWorld) genOp(g *rng, c04 bool) {
 	x := g.intn(100)
 	if c04 && x < w.poolPct {
 		w.genPoolOp(g)
+		return
+	}
+	if w.wrongPct > 0 && g.chance(w.wrongPct) {
+		w.genWrongCoinOrder(g)
 		return
 	}
 	x = g.intn(100)
@@ -1158,6 +1192,9 @@ func (w *liqWorld) genPoolOp(g *rng) {
 	app := w.apps[g.intn(len(w.apps))]
 	pools := w.k.GetAllPools(w.ctx, app)
 	owner := 1 + g.intn(5)
+	if w.creatorPct > 0 && g.chance(w.creatorPct) {
+		owner = 90
+	}
 	if len(pools) == 0 || g.chance(4) {
 		// create a (maybe duplicate) pool later in the history
 		_, p, ok := w.pickPair(g)
